@@ -695,10 +695,16 @@ func (fr *Frame) join(blk *ssa.BasicBlock, x *ssa.If, cond Value, stop *ssa.Basi
 		sa, ok := a.writes[c]
 		if !ok {
 			sa = cellState{c.Val, c.Rep}
+			if b.writes[c].rep != nil {
+				sa = it.stateIn(a.writes, c)
+			}
 		}
 		sb, ok := b.writes[c]
 		if !ok {
 			sb = cellState{c.Val, c.Rep}
+			if a.writes[c].rep != nil {
+				sb = it.stateIn(b.writes, c)
+			}
 		}
 		m := it.mergeState(p, cond, sa, sb, c)
 		it.journal = append(it.journal, jent{c, c.Val, c.Rep})
@@ -792,8 +798,27 @@ func (it *Interp) mergeValue(p *Term, cond Value, a, b Value) Value {
 			}
 		}
 	}
+	// two different pointers: a selection (r0/r1 swapped under a condition)
+	if sel, ok := mergePtrs(p, cond, a, b); ok {
+		return sel
+	}
 	taint := taintOf(cond) || taintOf(a) || taintOf(b)
 	return Top{Taint: taint, Why: "join"}
+}
+
+func mergePtrs(p *Term, cond Value, a, b Value) (PtrSel, bool) {
+	pa, oka := a.(Ptr)
+	pb, okb := b.(Ptr)
+	if !oka || !okb {
+		return PtrSel{}, false
+	}
+	if p != nil {
+		return PtrSel{Alts: []*Cell{pa.C, pb.C}, Conds: []*Term{p, TInt(1).Sub(p)}}, true
+	}
+	if t, isTop := cond.(Top); isTop {
+		return PtrSel{Alts: []*Cell{pa.C, pb.C}, Top: &t}, true
+	}
+	return PtrSel{}, false
 }
 
 func asTerm(v Value) (*Term, bool) {
@@ -1309,6 +1334,11 @@ func (it *Interp) DeepApplyTerm(t *Term) *Term {
 			}
 		}
 	}
+	if len(it.bind) > 0 {
+		sb := NewSubst(nil, false)
+		sb.IBind = it.bind
+		t = sb.Term(t)
+	}
 	return it.ApplyTerm(t)
 }
 
@@ -1321,6 +1351,11 @@ func (it *Interp) DeepApplyPoly(p *Poly) *Poly {
 				p = NewVarSubst(fv, c).Poly(p)
 			}
 		}
+	}
+	if len(it.bind) > 0 {
+		sb := NewSubst(nil, false)
+		sb.IBind = it.bind
+		p = sb.Poly(p)
 	}
 	return p
 }
